@@ -507,7 +507,30 @@ class HeapMixin:
             return ref_
         if r.elem[0] == "callback":
             return VCallback(f"{r.sym}[{pos}]")
-        return self.fresh(r.elem, self.run.fresh_name(f"{r.sym}[{pos}]"))
+        v = self.fresh(r.elem, self.run.fresh_name(f"{r.sym}[{pos}]"))
+        if r.elem[0] == "tuple" and (r.mem is not None or r.memfn is not None):
+            self.run.assume(self.list_member_term(r, v))         # an element of the list is a member of the list
+        return v
+
+    def list_member_term(self, r, x):
+        """`x in <symbolic list>` through the ghost membership set / membership function; a member implies a non-empty list"""
+        run = self.run
+        if r.memfn is not None:
+            m = r.memfn(x)
+        else:
+            m = z3.Select(r.mem, self.term_of(x, r.elem) if r.elem[0] != "tuple" else self.inject(x))
+            # trigger: a membership query on a source list instantiates "a member implies non-empty" for every filtered list derived from it
+            # (x in filtered <=> x in source and f(x); an empty filtered list therefore has no such x)
+            if not hasattr(run, "mem_queried"):
+                run.mem_queried, run.mem_derived = {}, {}
+            key = r.mem.get_id()
+            seen = run.mem_queried.setdefault(key, [])
+            if not any(y is x for y in seen):
+                seen.append(x)
+                for (fn, ln) in run.mem_derived.get(key, []):
+                    run.assume(z3.Implies(fn(x), ln > 0), persist=True)
+        run.assume(z3.Implies(m, r.length > 0), persist=True)
+        return m
 
     def list_append(self, ref, v):
         r = self.run.rec(ref.oid)
@@ -524,6 +547,13 @@ class HeapMixin:
                 r.arr = None
                 r.mem = None
                 r.elem = ("any",)
+        if r.arr is None and r.memfn is not None:
+            r.memfn = None
+        if r.arr is None and r.mem is not None and r.elem[0] == "tuple":
+            try:
+                r.mem = z3.Store(r.mem, self.inject(v), z3.BoolVal(True))
+            except (E.Unsupported, z3.Z3Exception):
+                r.mem = None
         if r.arr is None:
             r.appended.append((E.simp(r.length + (r.shift if not isinstance(r.shift, int) or r.shift else 0)) if False else E.simp(r.length), v))
         if r.cnt and isinstance(v, VRef):
@@ -612,6 +642,10 @@ class HeapMixin:
             return self.sym_ref(nm, "obj", cls, lambda: ObjRec(cls, {}, sym=nm))
         return self.fresh(r.vtype, nm)
 
+    def order_array(self, r):
+        """ghost iteration order of a symbolic dict: one array per key set (version), a bijection [0, size) -> keys"""
+        return z3.Array(f"{r.sym}#order" + (f"@{r.ordver}" if r.ordver else ""), z3.IntSort(), self.sort_of(r.ktype))
+
     def dict_set(self, ref, k, v):
         r = self.run.rec(ref.oid)
         if r.concrete:
@@ -630,6 +664,7 @@ class HeapMixin:
         was = z3.Select(r.dom, kt)
         r.size = z3.If(was, r.size, r.size + 1)
         r.dom = z3.Store(r.dom, kt, z3.BoolVal(True))
+        r.ordver += 1
         if r.val is not None:
             r.val = z3.Store(r.val, kt, self.term_of(v, r.vtype))
         else:
@@ -658,6 +693,7 @@ class HeapMixin:
         old = self.symdict_val(ref, r, kt) if (r.val is not None or r.vtype[0] == "obj") else None
         r.dom = z3.Store(r.dom, kt, z3.BoolVal(False))
         r.size = r.size - 1
+        r.ordver += 1
         return old
 
     def dict_len(self, ref):
